@@ -58,7 +58,7 @@ def draw_case(draw, closed=()):
     cur = t
     suffix = g.pick(["none", "none", "overwrite", "drop", "overwrite_then_select"])
     if nd["op"] == "extend":
-        suffix = g.pick(["none", "none", "window2", "window2", "overwrite"])
+        suffix = g.pick(["none", "none", "window2", "window2", "window2", "overwrite"])
     if suffix == "window2":
         # a second windowed extend right after the target, over the whole table or a shorter partition list:
         # the target's values must still be per-partition (adjacent windows must not be merged into one window)
@@ -266,4 +266,4 @@ def run(ctx):
                 ev.count(k)
         return f
 
-    ctx.campaign("main", cases(ctx.closed), oracle, max_examples=ctx.n(400, 48000))
+    ctx.campaign("main", cases(ctx.closed), oracle, max_examples=ctx.n(600, 48000))
